@@ -72,6 +72,7 @@ func callbackCall(f *ssa.Function) *ssa.Call {
 
 func runC14(c *Ctx) {
 	p := c.P
+	ruleBasicAlwaysAsksCallback(c, "R14.2")
 	ruleAdaptersAlwaysAskTheScheme(c, "R14.2")
 	// the client never rewrites a list of writers it was handed (Compose(list...) shares the caller's backing array: an
 	// in-place filter shifts the caller's elements, and a writer taken from that list later is another credential)
@@ -611,6 +612,11 @@ func runC14(c *Ctx) {
 			c.obI("R14.1", r, "principal-is-callbacks", okP && princ != nil, "the principal returned is the application callback's — never the credential itself or another value", "origin "+describeOrigin(bad))
 			okE, _ := allOrigins(vr.Res[2], oNil(), oIsValue(cerr))
 			c.obI("R14.1", r, "error-is-callbacks", okE, "the error returned is the callback's", "")
+			if cb != nil && princ != nil && cb.Parent() == f && r.Parent() == f && dominates(cb, r) {
+				// once the callback has answered, its principal is what goes back — also next to an error
+				okK, _ := allOrigins(vr.Res[1], oIsValue(princ))
+				c.obI("R14.1", r, "callbacks-principal-never-dropped", okK, "every exit behind the callback hands back the callback's principal itself (a nil in its place would be 'a principal other than the callback's' whenever the callback reports one together with an error)", "")
+			}
 			if noCred != nil {
 				c.obI("R14.2", r, "applies-only-with-credential", vr.Guarded(negate(noCred)), "an applying exit is reached only when a credential was found", "")
 			}
@@ -1208,5 +1214,46 @@ func ruleAdaptersAlwaysAskTheScheme(c *Ctx, rule string) {
 			c.obI(rule, ta, "recognised-request-always-reaches-the-scheme", !lost, "once the adapter has recognised its parameter as a request ("+typeStr(ta.AssertedType)+") it calls the wrapped scheme: whether credentials apply is the scheme's answer", "a return is reachable for a recognised request without the scheme having been asked (e.g. only when no scopes are listed): the authenticator reports 'not applicable' for a request that carries its credential")
 		}
 		c.obRF(rule, f, "adapter-recognises-requests", n >= 1, "the adapter tests the type of its parameter", "")
+	}
+}
+
+// ruleBasicAlwaysAsksCallback (shared by C02 and C14): whenever the request carries Basic credentials (r.BasicAuth()
+// reports ok) the application's callback is asked — the scheme does not judge the credentials itself (an empty user
+// name, a short password …): "not applicable" is its answer only when there are no Basic credentials at all, so a
+// rejected credential is a rejection (its error is what the client sees, and no anonymous alternative is taken).
+func ruleBasicAlwaysAsksCallback(c *Ctx, rule string) {
+	p := c.P
+	for _, outerName := range []string{"rt/security.BasicAuthRealm", "rt/security.BasicAuthRealmCtx"} {
+		outer := p.FnOpt(outerName)
+		if outer == nil {
+			continue
+		}
+		for _, f := range anonFuncsDeep(outer) {
+			for _, bi := range callsIn(f, "(*net/http.Request).BasicAuth") {
+				ba, ok := bi.(*ssa.Call)
+				if !ok || ba.Parent() != f {
+					continue
+				}
+				okV := resultOf(ba, 2)
+				if okV == nil {
+					continue
+				}
+				isCallback := func(in ssa.Instruction) bool {
+					call, isCall := in.(*ssa.Call)
+					if !isCall || call.Call.IsInvoke() {
+						return false
+					}
+					okCb, _ := allOrigins(call.Call.Value, oIsValue(outer.Params[len(outer.Params)-1]))
+					return okCb
+				}
+				lost := false
+				for _, r := range realReturns(f) {
+					if pathExists(f, ba, r, factBool(vIs(okV), false), isCallback) {
+						lost = true
+					}
+				}
+				c.obI(rule, ba, "presented-basic-credentials-reach-the-callback", !lost, "once r.BasicAuth() found credentials the application callback is asked about them, whatever they look like", "a return is reachable with Basic credentials present and the callback not asked (e.g. for an empty user name): rejected credentials count as 'no credentials'")
+			}
+		}
 	}
 }
